@@ -83,6 +83,10 @@ class ScriptedOrigin:
         body = b'origin|%s|%s|%s|' % (r['method'], path, rid) + r['body'][:16]
         if path.endswith(b'/chunked'):
             c['out'].append(b'HTTP/1.1 200 OK\r\nTransfer-Encoding: chunked\r\nX-Conv: %s\r\n\r\n' % rid + refcodec.enchunk(body, [5, len(body) - 5]))
+        elif path.endswith(b'/close-delimited-large'):
+            blob = G.coded(b'L', 300000)
+            c['out'].append(b'HTTP/1.0 200 OK\r\nX-Conv: %s\r\n\r\n' % rid + blob)
+            c['close_after'] = True
         elif path.endswith(b'/close-delimited'):
             c['out'].append(b'HTTP/1.0 200 OK\r\nX-Conv: %s\r\n\r\n' % rid + body)
             c['close_after'] = True
@@ -101,6 +105,8 @@ class ScriptedOrigin:
             c['out'].append(b'HTTP/1.1 100 Continue\r\n\r\nHTTP/1.1 200 OK\r\nContent-Length: %d\r\nX-Conv: %s\r\n\r\n' % (len(body), rid) + body)
         else:
             c['out'].append(b'HTTP/1.1 200 OK\r\nContent-Length: %d\r\nX-Conv: %s\r\n\r\n' % (len(body), rid) + body)
+        if r['hd'].get(b'x-behave') == b'close-after':
+            c['close_after'] = True     # a complete, length-delimited answer - and then the origin hangs up
 
     def transcripts_for(self, conv_id: bytes) -> List[Tuple[bytes, str]]:
         """(bytes read, 'closed'|'open') of every origin connection whose traffic carries this conversation id."""
